@@ -7,6 +7,9 @@
 (* (pair, T) cell: a cell is one run; acc / tot count accepted / all        *)
 (* acceptance executions of the run and the last one must leave acc within  *)
 (* the logged 6-sigma bounds [lo, hi] of N * exp(-(f(S') - f(S)) / T).      *)
+(* Counted are the acceptance executions in the run's own scope and those   *)
+(* executions of an SA step nested in a Scope that are marked as trials     *)
+(* (act.k = 1; T is then the nested SA's own temperature).                  *)
 (* The distributional clause of C12 ("mu random ones") is decided per       *)
 (* survival cell: a cell is one run of executions of RandomReplacement      *)
 (* (act.pc = "cell") on the same parents, offspring (unique tags) and mu;   *)
@@ -24,7 +27,7 @@ NoCell == [mu |-> -1, par |-> <<>>, off |-> <<>>, n |-> 0, c |-> <<>>]
 TraceInit == Init /\ l = 1 /\ acc = 0 /\ tot = 0 /\ cell = NoCell
 
 Reset == /\ Rec[l].act.op = "reset"
-         /\ stack' = <<>> /\ temp' = 0
+         /\ stack' = <<>> /\ temp' = 0 /\ best' = NoBest
          /\ act' = Rec[l].act
          /\ res' = R("ok")
          /\ acc' = 0 /\ tot' = 0 /\ cell' = NoCell
@@ -49,8 +52,8 @@ CellStep(a, after) ==
 Exec == LET rc == Rec[l]
             a  == rc.act
         IN  /\ a.op # "reset"
-            /\ Step(a, rc.res, rc.stack, rc.temp)
-            /\ IF a.op = "sa_accept"
+            /\ Step(a, rc.res, rc.stack, rc.temp, rc.best)
+            /\ IF a.op = "sa_accept" \/ (a.op = "nested" /\ a.k = 1)
                THEN /\ tot' = tot + 1
                     /\ acc' = acc + (IF SaAccepted(stack, stack') THEN 1 ELSE 0)
                     /\ a.last = 1 => (a.lo <= acc' /\ acc' <= a.hi)
